@@ -4,7 +4,16 @@ Programs: non-seeking constructs from the generator (as C01) plus curated non-ca
 cases.  Symbolic: ALL input bytes (so non-minimal VarInts, flags other than 0/1, arbitrary
 padding, trailing bytes inside delimited regions are included, not sampled).  On every
 accepting path: build accepts the parsed value; parsing the rebuilt bytes yields an equal
-value; building again yields identical bytes (build-after-parse is idempotent).
+value; building again yields identical bytes (build-after-parse is idempotent); the construct object
+itself is unchanged (so the normal form cannot depend on earlier messages).
+
+Gallery family (bounded perturbation): the repository's own sample of a gallery format is the base input
+and a window of 2 (3) consecutive bytes is replaced by symbolic bytes -- all 65536 (2^24) values of the
+window are decided at once -- for windows sliding over the structured part of the file and striding over
+the rest; the small protocol headers are covered at every offset; gallery/ut_index.py (UTIndex) is small
+enough for every input of 1..5 bytes.  The gallery modules are loaded from /repo with the same
+instrumentation as the package (symx.loader.load_extra); number <-> text adapters there (MAC / IP
+addresses, "%02x", str.format, split, int(s, 16)) are executed symbolically, digit by digit.
 """
 from symx import api
 from . import common
@@ -15,11 +24,16 @@ LEVEL = "model_checking"
 INSTANCE_BUDGET_S = {"quick": 90, "thorough": 600}
 EXHAUSTIVE = {"quick": False, "thorough": False}
 BOUNDS = {
-    "quick": dict(programs="leaves + all 1-level wrappings + 80 seeded 2-level wrappings + curated", input_lengths="every byte string of length 0,1,2,3,4,6 (per program: lengths around its size)"),
-    "thorough": dict(programs="as quick with 800 2-level wrappings", input_lengths="0..8"),
+    "quick": dict(programs="leaves + all 1-level wrappings + 80 seeded 2-level wrappings + 45 curated", input_lengths="every byte string of length 0,1,2,3,4,6 (per program: lengths around its size)",
+                  gallery="UTIndex: every input of 1..5 bytes; mbr, gif, wmf, png samples: every 2-byte window in the structured part (QUICK_REGIONS) + 16 strided windows; "
+                          "ethernet, arp, ipv4, ipv6, icmp (2 samples), igmp, tcp, udp, dhcp6, dns samples: every 2-byte window"),
+    "thorough": dict(programs="as quick with 800 2-level wrappings", input_lengths="0..8", gallery="every 2-byte window of every sample + 3-byte windows over the structured parts"),
 }
 OUTSIDE = ["Optional/Select over alternatives that build from None (Const, Default, Rebuild): parse yields None when absent but build(None) emits the constant -- documented semantics of Select+Const, not canonical by design",
-           "gallery formats (megabyte inputs; a bounded perturbation harness is not built)", "strings/floats (stage 2)", "Pointer/Seek/Peek (seeking constructs are excluded by the property)"]
+           "gallery formats that seek (bmp, emf, pe32, elf32, gallery/pe32coff, gallery/elf: Pointer regions can overlap other fields once an offset is perturbed -- the property is stated for sequential constructs), "
+           "that convert through the C library's local time (cap: datetime, snoop: time.ctime) or that have no sample in the repository (ext2, fat16); perturbations wider than 3 bytes or at several places at once; "
+           "insertions and truncations of gallery samples (covered for the grammar's constructs by the all-lengths family, and by C06 for rejection)",
+           "floats", "Pointer/Seek/Peek (seeking constructs are excluded by the property)"]
 ASSUMPTIONS = []
 
 I8, I16l, VAR, FLAG = common.I8, common.I16l, common.VAR, common.FLAG
@@ -40,6 +54,19 @@ CURATED = [
     ("struct", (("m", ("bytesint", 3, True, True)), ("t", ("terminated",)))),
     ("xor", "5a00", ("greedyrange", I8, 0)), ("byteswapped", ("struct", (("a", I8), ("b", FLAG)))), ("bitsswapped", ("greedyrange", FLAG, 0)),
     ("repeatuntil", 0, I8, 0),
+    # alignment / padding that starts at an offset which is not a multiple of the modulus
+    ("struct", (("tag", I8), ("val", ("aligned", 4, common.I16b, "00")))), ("struct", (("tag", I8), ("val", ("aligned", 4, VAR, "00"))), ),
+    ("greedyrange", ("struct", (("tag", I8), ("val", ("aligned", 2, I8, "00")))), 0),
+    ("struct", (("tag", I8), ("val", ("padded", 3, VAR, "00")), ("t", I8))),
+    ("seq", (I8, ("aligned", 4, ("seq", (I8, ("aligned", 2, I8, "00"))), "00"))),
+    # multi-byte terminators where EOF may stand in for the terminator: input cut in the middle of a unit
+    ("nullterminated", GB, "0000", False, True, False), ("nullterminated", GB, "0000", True, True, False), ("nullterminated", GB, "0000", False, False, False),
+    ("nullterminated", GB, "000000", False, True, False), ("struct", (("s", ("nullterminated", GB, "ff00", False, True, False)),)),
+    ("nullterminated", ("greedyrange", common.I16b, 0), "0000", False, True, False),
+    # length fields whose own size comes from the context (includelength counts that size too)
+    ("struct", (("w", I8), ("p", ("prefixed", ("bytesintctx", "w", False), GB, True)))),
+    ("struct", (("w", I8), ("p", ("prefixed", ("bytesintctx", "w", False), VAR, False)), ("t", I8))),
+    ("struct", (("w", I8), ("v", ("bytesintctx", "w", True)), ("u", ("bitwise", ("bitsintctx", "w", False))))),
 ]
 
 
@@ -57,6 +84,110 @@ def _lens(spec, tier, deep):
     return [0, 1, 2, 3, 4, 6] if tier == "quick" else list(range(0, top + 1))
 
 
+# ---------------------------------------------------------------------------------------------
+# gallery formats: bounded perturbation.  The repository's own sample of each format is the base
+# input; a window of w consecutive bytes is replaced by symbolic bytes (all 2^(8w) values at once),
+# for windows sliding over the file.  UTIndex is small enough for every input of 1..5 bytes.
+BLOBS = "tests/deprecated_gallery/blobs/"
+GALLERY = {
+    # key: (source file, expression, sample: blob file name or hex)
+    "utindex": ("gallery/ut_index.py", "UTIndex()", None),
+    "mbr": ("deprecated_gallery/mbr.py", "mbr_format", "mbr1"),
+    "gif": ("deprecated_gallery/gif.py", "gif_file", "sample.gif"),
+    "wmf": ("deprecated_gallery/wmf.py", "wmf_file", "wmf1.wmf"),
+    "png": ("deprecated_gallery/png.py", "png_file", "sample.png"),
+    "ethernet": ("deprecated_gallery/ipstack.py", "ethernet_header", "0011508c283c0002e34260090800"),
+    "arp": ("deprecated_gallery/ipstack.py", "arp_header", "00010800060400010002e3426009c0a80204000000000000c0a80201"),
+    "ipv4": ("deprecated_gallery/ipstack.py", "ipv4_header", "4500003ca0e3000080116185c0a80205d474a126"),
+    "ipv6": ("deprecated_gallery/ipstack.py", "ipv6_header", "6ff00000010206803031323334353637383941424344454646454443424139383736353433323130"),
+    "icmp": ("deprecated_gallery/ipstack.py", "icmp_header", "0800305c02001b006162636465666768696a6b6c6d6e6f7071727374757677616263646566676869"),
+    "icmp3": ("deprecated_gallery/ipstack.py", "icmp_header", "0301000000001122aabbccdd0102030405060708"),
+    "igmp": ("deprecated_gallery/ipstack.py", "igmpv2_header", "1600FA01EFFFFFFD"),
+    "tcp": ("deprecated_gallery/ipstack.py", "tcp_header", "0db5005062303fb21836e9e650184470c9bc0000"),
+    "udp": ("deprecated_gallery/ipstack.py", "udp_header", "0bcc003500280689"),
+    "dhcp6": ("deprecated_gallery/ipstack.py", "dhcp6_message", "0311223300170003414243000500054845 4c4c4f".replace(" ", "")),
+    "dns": ("deprecated_gallery/ipstack.py", "dns", "2624010000010000000000000377777706676f6f676c6503636f6d0000010001"),
+}
+# bytes that are bit-structs of flags/enums: every bit forks parse and build, so a window never spans two of them
+DENSE = {"dns": (2, 3)}
+# quick tier, files larger than 64 bytes: every window inside the structured part + a stride over the rest
+QUICK_REGIONS = {"mbr": [(440, 512)], "gif": [(0, 40)], "wmf": [(0, 40)], "png": [(0, 48)]}
+_GCACHE = {}
+
+
+def _gallery(C, key):
+    rel, expr, sample = GALLERY[key]
+    k = (id(C), rel)
+    m = _GCACHE.get(k)
+    if m is None:
+        from symx.loader import load_extra
+        m = _GCACHE[k] = load_extra(C, rel)
+    d = eval(expr, m.__dict__)
+    if getattr(C, "instrumented", False):
+        from symx.loader import wrap_instance_tables
+        wrap_instance_tables(d)
+    if sample is None:
+        data = None
+    elif "." in sample or not all(c in "0123456789abcdefABCDEF" for c in sample):
+        with open("%s/%s%s" % (C.root, BLOBS, sample), "rb") as f:
+            data = f.read()
+    else:
+        data = bytes.fromhex(sample)
+    return d, data
+
+
+def _gallery_instances(tier, root="/repo"):
+    import os
+    out = []
+    for n in range(1, 6):
+        out.append(dict(name="gallery UTIndex: every input of %d bytes" % n, params=dict(gallery="utindex", n=n), expect=["accept"]))
+    for key, (rel, expr, sample) in GALLERY.items():
+        if sample is None:
+            continue
+        if "." in sample or not all(c in "0123456789abcdefABCDEF" for c in sample):
+            fn = "%s/%s%s" % (root, BLOBS, sample)
+            size = os.path.getsize(fn) if os.path.exists(fn) else 0
+        else:
+            size = len(sample) // 2
+        wins = set()
+        if size <= 64 or tier == "thorough":
+            wins |= {(o, 2) for o in range(0, size - 1)}
+        else:
+            for a, b in QUICK_REGIONS.get(key, [(0, 40)]):
+                wins |= {(o, 2) for o in range(a, min(b, size - 1))}
+            wins |= {(o, 2) for o in range(0, size - 1, max(2, size // 16))}
+            wins.add((size - 2, 2))
+        if tier == "thorough":
+            for a, b in QUICK_REGIONS.get(key, [(0, min(size, 64))]):
+                wins |= {(o, 3) for o in range(a, min(b, size - 2))}
+        dense = DENSE.get(key, ())
+        wins = {(o, w) for o, w in wins if sum(1 for b in range(o, o + w) if b in dense) <= 1} | {(b, 1) for b in dense}
+        for o, w in sorted(wins):
+            nm = "gallery %s (%s): bytes[%d:%d] symbolic" % (expr, sample if len(sample) < 20 else sample[:12] + "..", o, o + w)
+            if key == "dns" and o + w > 12 and o < size - 4:
+                # the name region: inputs with a '.' byte inside a label are a recorded finding (known_findings.json);
+                # they are explored as instances of their own so that everything else stays a hard obligation
+                out.append(dict(name=nm + ", no 0x2e in the window", params=dict(gallery=key, off=o, w=w, dot=False), expect=["accept"]))
+                out.append(dict(name=nm + ", a 0x2e ('.') in the window", params=dict(gallery=key, off=o, w=w, dot=True)))
+                continue
+            out.append(dict(name=nm, params=dict(gallery=key, off=o, w=w), expect=["accept"]))
+    return out
+
+
+def _gallery_harness(ctx, C, p):
+    d, base = _gallery(C, p["gallery"])
+    if base is None:
+        data = ctx.bytes("data", p["n"])
+    else:
+        o, w = p["off"], p["w"]
+        win = ctx.bytes("window", w)
+        if "dot" in p:
+            hasdot = api.or_terms([ctx.eq(win[i], 0x2e) for i in range(w)])
+            ctx.assume(hasdot if p["dot"] else api.not_term(hasdot))
+        data = base[:o] + win + base[o + w:]
+    return _roundtrip(ctx, d, data)
+
+
 def seeking(spec):
     return any(x[0] in ("pointer", "peek", "tell", "rawcopy") for x in common.walk(spec))
 
@@ -72,13 +203,26 @@ def instances(tier, seed):
         seen.add(src(s))
         for n in _lens(s, tier, src(s) not in shallow):
             out.append(dict(name="%d bytes  %s" % (n, src(s)), params=dict(spec=J(s), n=n)))
-    return out
+    return out + _gallery_instances(tier)
 
 
 def harness(ctx, C, p):
+    if "gallery" in p:
+        return _gallery_harness(ctx, C, p)
     spec = T(p["spec"])
     d = mk(C, src(spec))
+    common.warmup(d, p["n"])
     data = ctx.bytes("data", p["n"])
+    return _roundtrip(ctx, d, data)
+
+
+class _NoMods:
+    modules = {}
+
+
+def _roundtrip(ctx, d, data):
+    from .c17 import fingerprint
+    f0 = fingerprint(_NoMods, [d])
     r = api.outcome(d.parse, data)
     if not r.ok:
         return "reject"
@@ -93,4 +237,5 @@ def harness(ctx, C, p):
     b2 = api.outcome(d.build, r2.value)
     ctx.check("building again succeeds", b2.ok)
     ctx.check("building again yields identical bytes (canonical form is stable)", ctx.eq(b2.value, b1.value))
+    ctx.check("parse and build leave the construct object as it was (the normal form cannot depend on earlier messages)", f0 == fingerprint(_NoMods, [d]))
     return "accept"
